@@ -221,6 +221,20 @@ def _scope_files():
     return sorted(out)
 
 
+def _shape(txt):
+    """what the loop binds: kv = key and value (tuple pattern), keys / values = one side only, elem = a single binding;
+    the class of a site depends on it (a merge that re-uses the stored value is KeyedMerge, one that walks .keys() and
+    recomputes the value is not)"""
+    if re.search(r"\.(?:keys|into_keys)\(\)", txt):
+        return "keys"
+    if re.search(r"\.(?:values|values_mut|into_values)\(\)", txt):
+        return "values"
+    m = re.match(r"\s*for\s+(\([^)]*\)|[^ ]+)\s+in\b", txt)
+    if m:
+        return "kv" if m.group(1).startswith("(") and "," in m.group(1) else "elem"
+    return "iter"
+
+
 def hash_sites():
     """-> (iteration sites [(file, fn, name)], serialized hash fields [(file, Struct.field)])"""
     import os
@@ -265,11 +279,12 @@ def hash_sites():
             pat = re.compile(r"(?:\bfor\s+[^;{]*?\bin\s+&?(?:mut\s+)?(?:\*?[a-z_][a-z0-9_]*\.)*" + nm + r"\b(?!\s*\.(?:get|contains|contains_key|len|is_empty|insert|remove|entry))(?=[^;{]*\{))"
                              r"|(?:\b(?:[a-z_][a-z0-9_]*\.)*" + nm + _ITER + ")")
             for m in pat.finditer(t):
-                sites.add((rel(f), fn_at(m.start()), nm))
+                sites.add((rel(f), fn_at(m.start()), nm + "#" + _shape(m.group(0))))
         for nm in sorted(accessors):
             pat = re.compile(r"\b" + nm + r"\(\s*\)" + _ITER + r"|\bin\s+&?(?:[a-z_][a-z0-9_]*\.)*" + nm + r"\(\s*\)\s*\{")
             for m in pat.finditer(t):
-                sites.add((rel(f), fn_at(m.start()), nm + "()"))
+                ctx_txt = t[max(0, t.rfind("for ", 0, m.start())):m.end()] if "for " in t[max(0, m.start() - 80):m.start()] else m.group(0)
+                sites.add((rel(f), fn_at(m.start()), nm + "()#" + _shape(ctx_txt)))
         # structs that are serialized (serde) and own a hash table
         for sm in re.finditer(r"#\[derive\(([^)]*)\)\]\s*(?:#\[[^\]]*\]\s*)*pub\s+struct\s+(\w+)[^{;]*\{(.*?)\n\}", t, flags=re.S):
             if "Serialize" in sm.group(1):
